@@ -96,7 +96,7 @@ func (d *driver) validate(all []*result, progs map[string]*interp.Program, want 
 		wk := w[r.scaleSet]
 		if wk == nil {
 			var err error
-			wk, err = interp.NewWorker(prog, 99, d.solver, interp.Limits{MaxSteps: 200_000_000, MaxPaths: 1, MaxDecisions: 100000, Preemptions: -1, MaxValues: 64})
+			wk, err = interp.NewWorker(prog, 99, d.solver, interp.Limits{MaxSteps: 4_000_000_000, MaxPaths: 1, MaxDecisions: 100000, Preemptions: -1, MaxValues: 64})
 			if err != nil {
 				continue
 			}
